@@ -93,6 +93,13 @@ def duck_pm(lto=None, apu='real', aircraft_class=None, edb=None):
             EI_HC=ThrustModeValues(*[float(x) for x in lto['hc']]),
             EI_CO=ThrustModeValues(*[float(x) for x in lto['co']]),
         )  # fmt: skip
+        if lto.get('mutable'):
+            # arithmetic on LTO values yields mutable containers (the documented way to scale LTO data)
+            l0 = ns.lto
+            ns.lto = LTOPerformance(
+                source=l0.source, ICAO_UID=l0.ICAO_UID, rated_thrust=l0.rated_thrust, thrust_pct=l0.thrust_pct * 1.0,
+                fuel_flow=l0.fuel_flow * 1.0, EI_NOx=l0.EI_NOx * 1.0, EI_HC=l0.EI_HC * 1.0, EI_CO=l0.EI_CO * 1.0,
+            )  # fmt: skip
     ns.apu = base.apu if apu == 'real' else apu
     ns.aircraft_class = aircraft_class if aircraft_class is not None else base.aircraft_class
     ns.number_of_engines = base.number_of_engines
